@@ -80,6 +80,9 @@ class Effects:
             return self.fresh(t.args[1], fi, depth + 1) and self.fresh(t.args[2], fi, depth + 1)
         if op == "phi":
             return all(self.fresh(a, fi, depth + 1) for a in t.args if a.op not in ("carried", "undef"))
+        if op == "listacc":
+            # a container filled with append / extend is the container it started as: fresh iff that one is
+            return bool(t.args) and self.fresh(t.args[0], fi, depth + 1)
         if op == "elem":
             return self.fresh(t.args[0], fi, depth + 1)
         if op == "attr":
